@@ -583,6 +583,37 @@ func init() {
 	add("keys mixed tx expiry", 6, func(g *G) []string {
 		return []string{g.pick("RENAME", "RENAMENX"), g.Key(), g.Key()}
 	})
+	// SORT: options in any order; the patterns point at the generator's own keys (elements 0…5 -> k0…k5)
+	add("keys mixed list set expiry", 5, func(g *G) []string {
+		var groups [][]string
+		if g.R.Intn(3) == 0 {
+			groups = append(groups, []string{g.kw("BY"), g.pick("k*", "k*", "w_*", "*")})
+		}
+		if g.R.Intn(3) == 0 {
+			groups = append(groups, []string{g.kw("LIMIT"), g.pick("0", "1", "2", "-1", "5"), g.pick("1", "2", "10", "-1", "0", "9223372036854775807")})
+		}
+		for i := 0; i < g.R.Intn(3); i++ {
+			groups = append(groups, []string{g.kw("GET"), g.pick("#", "k*", "nostar", "*")})
+		}
+		if g.R.Intn(2) == 0 {
+			groups = append(groups, []string{g.kw(g.pick("ASC", "DESC", "DESC"))})
+		}
+		if g.R.Intn(2) == 0 {
+			groups = append(groups, []string{g.kw("ALPHA")})
+		}
+		if g.R.Intn(4) == 0 {
+			groups = append(groups, []string{g.kw("STORE"), g.Key()})
+		}
+		return cat([]string{"SORT", g.Key()}, shuffle(g, groups)...)
+	})
+	// numeric collections, so that SORT without ALPHA has something to order
+	add("keys list set", 3, func(g *G) []string {
+		a := []string{g.pick("RPUSH", "SADD"), g.Key()}
+		for i := 0; i < 2+g.R.Intn(5); i++ {
+			a = append(a, g.pick("0", "1", "2", "3", "4", "5", "10", "-1", "2.5", "1e1", "03"))
+		}
+		return a
+	})
 	add("keys mixed expiry", 6, func(g *G) []string {
 		a := []string{"COPY", g.Key(), g.Key()}
 		if g.R.Intn(2) == 0 {
